@@ -60,6 +60,9 @@ def cases(tier, seed):
 
 
 def _cases(tier, seed):
+    # more than 100 000 blocks in non-square layouts (seed C08-12: another search path for very many blocks)
+    for spec in (dict(shape=[250, 500]), dict(shape=[500, 250]), dict(spacing=0.1), dict(shape=[1, 150000]), dict(shape=[120001, 1])):
+        yield dict(many=True, spec=spec)
     for fr in _frames(tier, seed):
         for spec in SPECS:
             for adjust in ("spacing", "region"):
@@ -87,6 +90,39 @@ def _lattice(lo, hi, pad):
 def run(case, rec):
     import verde as vd
 
+    if case.get("many"):
+        spec = case["spec"]
+        region = [0.0, 80.0, 0.0, 30.0]
+        i = np.arange(400, dtype=float)
+        east = 80.0 * np.modf(i * 0.6180339887498949)[0]
+        north = 30.0 * np.modf(i * 0.7548776662466927)[0]
+        kw = dict(region=region)
+        if "shape" in spec:
+            kw["shape"] = tuple(spec["shape"]); nn, ne = spec["shape"]
+        else:
+            kw["spacing"] = spec["spacing"]; nn, ne = 300, 800
+        got = call(rec, vd.block_split, (east, north), **kw)
+        if raised(got):
+            return rec.check(False, "block_split raised %r" % (got,))
+        (bce, bcn), labels = got
+        labels = np.asarray(labels)
+        rec.check(np.asarray(bce).size == nn * ne and labels.shape == (400,), "expected %d blocks and 400 labels, got %d and %s" % (nn * ne, np.asarray(bce).size, labels.shape))
+        bad = None
+        nstrict = 0
+        for j in range(400):
+            adm = G.block_index_exact(east[j], north[j], region, ne, nn, (1e-12, 1e-12))
+            nstrict += len(adm) == 1
+            if int(labels[j]) not in adm and bad is None:
+                bad = (float(east[j]), float(north[j]), int(labels[j]), sorted(adm))
+        rec.check(bad is None, "layout %d x %d: point (%r, %r) labelled %r, admissible %r" % ((nn, ne) + (bad if bad else (0, 0, 0, 0))))
+        if np.asarray(bce).size == nn * ne and bad is None:
+            lab = labels.astype(int)
+            ce = (lab % ne + 0.5) * (80.0 / ne); cn = (lab // ne + 0.5) * (30.0 / nn)
+            rec.check(bool(np.all(np.abs(np.asarray(bce)[lab] - ce) <= 1e-9) and np.all(np.abs(np.asarray(bcn)[lab] - cn) <= 1e-9)), "block centres of the labelled blocks are not the centres of the pixel grid")
+        rec.count("points_labelled", 400)
+        rec.count("points_strictly_inside_one_block", nstrict)
+        rec.cls("many-blocks %dx%d" % (nn, ne))
+        return
     sc, off = case["frame"]
     spec, adjust = case["spec"], case["adjust"]
     if case["given"]:
